@@ -278,6 +278,15 @@ func Universe(o UniverseOpts) *Schema {
 	}
 	obj := func(name string) *TypeDef {
 		td := &TypeDef{Kind: KObject, Name: name, Fields: common()}
+		// per-type differences: a field only this type has, and a covariant implementation of Named.buddy
+		switch name {
+		case "A":
+			td.Fields = append(td.Fields, f("onlyA", N("String")), f("buddy", N("A")))
+		case "B":
+			td.Fields = append(td.Fields, f("onlyB", N("Int")), f("buddy", N("B")))
+		case "C":
+			td.Fields = append(td.Fields, f("onlyC", N("Boolean")), f("buddy", N("Named")))
+		}
 		for _, n := range named {
 			if n == name {
 				td.Implements = []string{"Named"}
@@ -301,7 +310,7 @@ func Universe(o UniverseOpts) *Schema {
 		{Kind: KObject, Name: "Mutation", Fields: []*FieldDef{
 			m("set", N("String"), &ArgDef{Name: "s", Type: NN(N("String"))}), f("a", N("A")), f("i", N("Int")),
 		}},
-		{Kind: KInterface, Name: "Named", Fields: []*FieldDef{f("name", N("String")), f("i", N("Int")), f("kid", N("A")), m("echo", N("String"), echoArgs()...)}},
+		{Kind: KInterface, Name: "Named", Fields: []*FieldDef{f("name", N("String")), f("i", N("Int")), f("kid", N("A")), m("echo", N("String"), echoArgs()...), f("buddy", N("Named"))}},
 		obj("A"), obj("B"), obj("C"),
 		{Kind: KUnion, Name: "AB", Members: members},
 		{Kind: KEnum, Name: "Color", Values: []string{"RED", "GREEN", "BLUE"}},
